@@ -815,6 +815,14 @@ def check_rest_unchanged(tree0, tree1, path, parent, field, desc, site):
             c.left = ast.Constant(value=0)
 
     if c07.norm_dump(a) != c07.norm_dump(b):
+        for t in (a, b):  # the literal text of a self-documenting f-string field follows an edit of its expression
+            for n in ast.walk(t):
+                if isinstance(n, ast.JoinedStr):
+                    for v in n.values:
+                        if isinstance(v, ast.Constant):
+                            v.value = ''
+
+    if c07.norm_dump(a) != c07.norm_dump(b):
         from ..oracle import first_diff
 
         raise Violation('C03.rest_changed', f'{desc}: nodes outside the container changed {first_diff(c07.norm_dump(b), c07.norm_dump(a))}', f'rest:{site}')
